@@ -1,5 +1,299 @@
 /-
-C11 — property theorems (stub: not built yet).
+C11 — Concurrent use of a Regexp equals sequential use.   (PARTIAL, see below)
+
+What is proved here: for the interleaving semantics of `Model/Interleave.lean` -- G goroutines, each
+executing the step script of one call on a shared Regexp, the runner pool / buffer pool / replacement
+cache touched only through atomic get/put/lookup/insert operations, every item owned exclusively by
+the goroutine that got it until it puts it back -- every call returns under every schedule (and every
+choice `sync.Pool` makes) exactly what it returns alone.  The proof combines
+  * history independence (the C12 theorems: whichever runner, buffer or cache state a call is
+    handed, its result is that of a new runner / new buffer / plain parse), and
+  * ownership exclusivity (a step of another goroutine does not touch what this goroutine owns),
+and `writeset_expected` ties the "touched only through atomic operations" premise to the Go source:
+the regenerated list of all assignments to shared objects contains only the synchronised ones.
+
+What is NOT proved (explored by legs S and R instead): that the Go implementation realises this
+semantics at the level of the Go memory model -- that `sync.Pool`, `sync.Mutex` and the atomics give
+the atomicity and visibility assumed, that no shared object is written through a local alias of a
+slice or map, and the behaviour of the timeout clock goroutine.  Those are checked dynamically with
+the race detector and by comparing concurrent results with precomputed sequential ones.
 -/
+import RegexVerif.Lemmas.Interleave
+import RegexVerif.Generated.Fields
+
 namespace RegexVerif.Props.C11
+open RegexVerif RegexVerif.Interleave RegexVerif.Lemmas.Interleave
+
+variable {R B O Args Res κ ν : Type} [DecidableEq κ]
+
+/-! ### the schedule-level argument -/
+
+/-- **Ownership exclusivity.**  A move of goroutine `g'` leaves the local state of every other goroutine
+    -- the runner, buffer and replacement data it currently owns, and its progress -- untouched. -/
+theorem ownership_exclusive (M : Sem R B O Args Res κ ν) (calls : Nat → Call Args κ) (g g' ch : Nat)
+    (σ : State R B Res κ ν) (h : g ≠ g') : (exec1 M calls (g', ch) σ).locals g = σ.locals g := by
+  simp [exec1, h]
+
+/-- **A step does not depend on the shared state it finds.**  Under the invariants (pooled runners
+    satisfy the pool invariant, the cache holds parses of its keys), one step of a goroutine -- whatever
+    the shared state holds and whatever `sync.Pool` picks -- changes the *relevant* part of its local state
+    (`α`: progress, observable runner state, visible buffer contents, parsed replacement, result) by a
+    function `absStep` that mentions neither; and the invariants are kept. -/
+theorem step_independent_of_shared_state (M : Sem R B O Args Res κ ν) (W : Laws M) (c : Call Args κ) (ch : Nat)
+    (S : Shared R B κ ν) (L : Local R B Res ν) (hS : SharedInv M W S) (hL : LocalGood M W c L) :
+    α M (stepG M c ch S L).2 = absStep M W c (α M L) ∧
+    SharedInv M W (stepG M c ch S L).1 ∧ LocalGood M W c (stepG M c ch S L).2 :=
+  stepG_abs M W c ch S L hS hL
+
+/-- **Every interleaving equals the sequential execution.**  Let any number of goroutines each execute
+    one call (`calls g`) on the same Regexp, starting from *any* shared state that satisfies the
+    invariants (i.e. after any history of earlier calls), under *any* schedule `sch` -- which also
+    fixes what `sync.Pool` hands out at every `get`.  If goroutine `g` has finished its call, its result
+    is the result of the same call executed alone on brand-new shared state. -/
+theorem interleaving_eq_sequential (M : Sem R B O Args Res κ ν) (W : Laws M) (calls : Nat → Call Args κ)
+    (S0 : Shared R B κ ν) (hS0 : SharedInv M W S0) (sch : Schedule) (g : Nat) (maxSize : Nat)
+    (hfin : ((exec M calls sch (initState calls S0)).locals g).todo = []) :
+    ((exec M calls sch (initState calls S0)).locals g).res = alone M (calls g) maxSize := by
+  have hinit : GInv M W calls (initState calls S0) := ⟨hS0, fun g => localGood_init M W (calls g)⟩
+  obtain ⟨_, hc⟩ := exec_abs M W calls sch _ hinit
+  have hS1 : SharedInv M W ({ runners := [], bufs := [], cache := LRU.empty maxSize } : Shared R B κ ν) :=
+    ⟨(by intro r h; cases h), ⟨(by simp [LRU.empty, LRU.keys]), (by intro _; simp [LRU.empty])⟩,
+     (by intro k v h; simp [LRU.empty, LRU.lookup] at h)⟩
+  have hinit1 : GInv M W (fun _ => calls g) (initState (fun _ => calls g) _) :=
+    ⟨hS1, fun _ => localGood_init M W (calls g)⟩
+  obtain ⟨_, ha⟩ := exec_abs M W (fun _ => calls g) (List.replicate (script (calls g)).length (0, 0)) _ hinit1
+  have hcg := hc g
+  have hag := ha 0
+  rw [moves_replicate] at hag
+  -- the abstraction of the initial local state is the same on both sides
+  have hA0 : α M ((initState calls S0).locals g) = α M ((initState (fun _ => calls g)
+      ({ runners := [], bufs := [], cache := LRU.empty maxSize } : Shared R B κ ν)).locals 0) := rfl
+  -- `g` has made at least as many moves as its script is long
+  have htodo : (α M ((exec M calls sch (initState calls S0)).locals g)).todo = [] := hfin
+  rw [hcg, iterate_todo] at htodo
+  have hlen : (script (calls g)).length ≤ moves g sch := by
+    have h0 : (α M ((initState calls S0).locals g)).todo = script (calls g) := rfl
+    rw [h0] at htodo
+    exact List.drop_eq_nil_iff.mp htodo
+  obtain ⟨k, hk⟩ := Nat.exists_eq_add_of_le hlen
+  -- after the script is finished further moves change nothing
+  have hdone : (iter (absStep M W (calls g)) (script (calls g)).length (α M ((initState calls S0).locals g))).todo = [] := by
+    rw [iterate_todo]; exact List.drop_eq_nil_iff.mpr (Nat.le_refl _)
+  have hres : (α M ((exec M calls sch (initState calls S0)).locals g)).res =
+      (α M ((exec M (fun _ => calls g) (List.replicate (script (calls g)).length (0, 0))
+        (initState (fun _ => calls g) { runners := [], bufs := [], cache := LRU.empty maxSize })).locals 0)).res := by
+    rw [hcg, hag, hk, iterate_add, iterate_done M W (calls g) k _ hdone, hA0]
+  exact hres
+
+/-! ### the hypotheses are the C12 theorems -/
+
+section concrete
+open RegexVerif.RunnerReuse
+/-- **The runner laws assumed above hold for the runner model of C12.**  With `InvR := PoolInv re`,
+    `Own := RunInv re`, `startR := scanInit ∘ (program selection)`, `putR := put`, `obs := observe`: a new
+    runner satisfies the pool invariant, the pool invariant implies the ownership facts, starting a scan on
+    any pooled runner gives the observable state a new runner gives, starting keeps the ownership facts,
+    and `put` re-establishes the pool invariant.  (The remaining laws -- the interpreter and `finish` read
+    only `observe`, decode overwrites -- are `call_history_independent`'s premise and
+    `pool_decode_history_independent` of C12.) -/
+theorem runner_laws_from_C12 (re : Re) (a : ScanArgs) (quick : Bool) :
+    PoolInv re Runner.fresh ∧
+    (∀ r, PoolInv re r → RunInv re r) ∧
+    (∀ r, PoolInv re r →
+        observe (scanInit re a (if quick then selectQuick re r else r)) =
+        observe (scanInit re a (if quick then selectQuick re Runner.fresh else Runner.fresh))) ∧
+    (∀ r, RunInv re r → RunInv re (scanInit re a (if quick then selectQuick re r else r))) ∧
+    (∀ r, RunInv re r → PoolInv re (put r)) := by
+  refine ⟨(Props.C12.put_resets_code re Runner.fresh (RegexVerif.Lemmas.RunnerReuse.runInv_fresh re)).2.2.2.1,
+    fun r h => h.2.2.2, fun r h => (Props.C12.scanInit_resets re a quick r h).1, ?_,
+    fun r h => (Props.C12.put_resets_code re r h).1⟩
+  intro r h
+  have hsel : RunInv re (if quick then selectQuick re r else r) := by
+    cases quick
+    · exact h
+    · simp only [selectQuick, if_true]; cases re.hasQuick <;> exact h
+  exact (Props.C12.put_resets_code re _ hsel).2.2.2.2 a
+
+end concrete
+
+/-! ### non-vacuity: a small instance -/
+section toy
+
+/-- a toy instance: runners are (junk, accumulator) pairs -- `put` clears the accumulator and leaves junk,
+    `start` overwrites the accumulator and keeps the junk, steps change both, only the accumulator is
+    observable; buffers are (backing array, length) with stale cells beyond the decoded prefix;
+    parsing a replacement `k` gives `k + 100`. -/
+def toy : Sem (Nat × Nat) (List Int × Nat) Nat Nat Nat Nat Nat where
+  freshR := (0, 0)
+  startR := fun a t r => (r.1, a + t.length)
+  stepR := fun _ t r => (r.1 + 1, r.2 * 2 + t.length)
+  finishR := fun _ d r => r.2 + d.getD 0
+  putR := fun r => (r.1 + r.2, 0)
+  obs := fun r => r.2
+  freshB := fun a => (List.replicate a 0, a)
+  fits := fun a b => decide (a ≤ b.1.length)
+  decodeB := fun a b => ((List.range a).map Int.ofNat ++ b.1.drop a, a)
+  visB := fun b => b.1.take b.2
+  putB := fun b => (b.1, 0)
+  parse := fun k => some (k + 100)
+
+def toyLaws : Laws toy where
+  InvR := fun r => r.2 = 0
+  Own := fun _ => True
+  stepO := fun _ t o => o * 2 + t.length
+  finishO := fun _ d o => o + d.getD 0
+  fresh_inv := rfl
+  inv_own := fun _ _ => trivial
+  start_obs := fun _ _ _ _ => rfl
+  start_own := fun _ _ _ _ => trivial
+  step_obs := fun _ _ _ => rfl
+  step_own := fun _ _ _ _ => trivial
+  finish_obs := fun _ _ _ => rfl
+  put_inv := fun _ _ => rfl
+  decode_vis := by
+    intro a b _
+    simp only [toy]
+    rw [List.take_left' (by simp), List.take_left' (by simp)]
+
+def toyCalls : Nat → Call Nat Nat
+  | 0 => { args := 3, repl := some 7, nsteps := 2 }
+  | 1 => { args := 5, repl := none, nsteps := 1 }
+  | _ => { args := 2, repl := some 7, nsteps := 0 }
+
+/-- shared state left behind by earlier calls: a pooled runner full of junk, a stale 6-cell buffer, a
+    cache that already holds key 7 -/
+def toyS0 : Shared (Nat × Nat) (List Int × Nat) Nat Nat :=
+  { runners := [(41, 0)], bufs := [([7, 7, 7, 7, 7, 7], 0)], cache := { entries := [(7, 107)], maxSize := 1 } }
+
+/-- an interleaving of the three calls (goroutine, `sync.Pool` choice) -/
+def toySchedule : Schedule :=
+  [(0, 0), (1, 0), (2, 0), (0, 0), (2, 5), (1, 0), (1, 0), (0, 5), (2, 0), (0, 0), (2, 0), (1, 0), (0, 0), (2, 0),
+   (1, 0), (0, 0), (2, 0), (1, 0), (0, 0), (2, 0), (1, 0), (0, 0), (0, 0), (0, 0), (2, 0), (2, 0), (1, 0)]
+
+example : SharedInv toy toyLaws toyS0 :=
+  ⟨by intro r h; simp [toyS0] at h; subst h; rfl,
+   ⟨by simp [toyS0, LRU.keys], by intro _; simp [toyS0]⟩,
+   by intro k v h; simp only [toyS0, LRU.lookup] at h; split at h <;> simp_all [toy] <;> omega⟩
+
+/-- all three goroutines finish, and each gets what it gets alone; the pooled runner really was handed
+    out (the junk 41 shows up in the runner goroutine 0 put back) -/
+example :
+    let σ := exec toy toyCalls toySchedule (initState toyCalls toyS0)
+    ((σ.locals 0).todo, (σ.locals 1).todo, (σ.locals 2).todo) = ([], [], []) ∧
+    ((σ.locals 0).res, (σ.locals 1).res, (σ.locals 2).res) =
+      (alone toy (toyCalls 0) 16, alone toy (toyCalls 1) 16, alone toy (toyCalls 2) 16) ∧
+    (alone toy (toyCalls 0) 16, alone toy (toyCalls 1) 16, alone toy (toyCalls 2) 16) = (some 140, some 25, some 111) ∧
+    σ.shared.runners.map (·.1) ≠ [0, 0, 0] := by
+  decide
+
+end toy
+
+/-! ### the premise "shared state is touched only through synchronised operations", against the source -/
+section writeset
+
+/-- why a write to an object that goroutines may share is not a race -/
+inductive Sync where
+  | compileTime   -- in a function that is not reachable from any match-time entry point: the object is
+                  --   still being built by Compile / MustCompile / RegisterEngine / UnmarshalText
+  | mutex         -- under a mutex held by the function (cache `mu`, clock `mu`, `enginesMu`)
+  | poolOwned     -- `*p = …` on a buffer pointer the caller owns between `sync.Pool.Get` and `Put`
+  | callLocal     -- `*p = …` where `p` points into an object owned by the current call (its runner's
+                  --   stack fields, its output list)
+  | parseLocal    -- `syntax` functions reachable only through the replacement parser, which mutates
+                  --   the tree and sets *it* is building
+  | lazyInit      -- `initCaches` via `getRunner` when `runnerPool == nil`: dead for every Regexp made by
+                  --   `Compile`/`MustCompile` (both constructors call `initCaches`, see `initCaches_callers`)
+  | testOnly      -- documented debug/test API (`SetTimeoutCheckPeriod`)
+  deriving DecidableEq, Repr
+
+/-- every assignment to a shared object in the sources: (function, target, reachable at match time,
+    why it is not a race) -/
+def expectedSharedWrites : List (String × String × Bool × Sync) := [
+  ("bufferpool.go:pooledSliceBuffers.put", "*regexp2.T", true, .poolOwned),
+  ("bufferpool.go:putPooledReplaceBuffer", "*?pooled", true, .poolOwned),
+  ("fastclock.go:extendClock", "var regexp2.fast.running", true, .mutex),
+  ("fastclock.go:extendClock", "var regexp2.fast.start", true, .mutex),
+  ("fastclock.go:runClock", "var regexp2.fast.running", true, .mutex),
+  ("regexp.go:Regexp.FindAllStringIndex", "*?pooledInput", true, .poolOwned),
+  ("regexp.go:Regexp.UnmarshalText", "*regexp2.Regexp", false, .compileTime),
+  ("regexp.go:Regexp.initCaches", "regexp2.Regexp.replaceCache", true, .lazyInit),
+  ("regexp.go:Regexp.initCaches", "regexp2.Regexp.runnerPool", true, .lazyInit),
+  ("regexp.go:Regexp.matchStringAt", "*?pooledInput", true, .poolOwned),
+  ("regexp.go:SetTimeoutCheckPeriod", "var regexp2.clockPeriod", false, .testOnly),
+  ("regexp.go:makeQuickCode", "syntax.Code.Codes", false, .compileTime),
+  ("regexp.go:makeQuickCode", "syntax.Code.QuickCodes", false, .compileTime),
+  ("regexp.go:replacerDataCache.add", "regexp2.replacerDataCache.cache[]", true, .mutex),
+  ("regexp.go:replacerDataCache.add", "regexp2.replacerDataCacheEntry.data", true, .mutex),
+  ("regexp_codegen.go:RegisterEngine", "var regexp2.engines[]", false, .mutex),
+  ("replace.go:replacementImplRTL", "*?al", true, .callLocal),
+  ("runner.go:doubleIntSlice", "*?pos", true, .callLocal),
+  ("runner.go:doubleIntSlice", "*?s", true, .callLocal),
+  ("syntax/charclass.go:CharSet.addCaseEquivalences", "syntax.CharSet.ranges", true, .parseLocal),
+  ("syntax/charclass.go:CharSet.addCategories", "syntax.CharSet.categories", true, .parseLocal),
+  ("syntax/charclass.go:CharSet.addLowercase", "syntax.CharSet.ranges[]", false, .compileTime),
+  ("syntax/charclass.go:CharSet.addLowercaseRange", "syntax.CharSet.ranges", false, .compileTime),
+  ("syntax/charclass.go:CharSet.addNegativeRanges", "syntax.CharSet.ranges", false, .compileTime),
+  ("syntax/charclass.go:CharSet.addRange", "syntax.CharSet.ranges", true, .parseLocal),
+  ("syntax/charclass.go:CharSet.addRanges", "syntax.CharSet.ranges", false, .compileTime),
+  ("syntax/charclass.go:CharSet.addSet", "syntax.CharSet.ranges", true, .parseLocal),
+  ("syntax/charclass.go:CharSet.addSubtraction", "syntax.CharSet.sub", false, .compileTime),
+  ("syntax/charclass.go:CharSet.canonicalize", "syntax.CharSet.categories", true, .parseLocal),
+  ("syntax/charclass.go:CharSet.canonicalize", "syntax.CharSet.negate", true, .parseLocal),
+  ("syntax/charclass.go:CharSet.canonicalize", "syntax.CharSet.ranges", true, .parseLocal),
+  ("syntax/charclass.go:CharSet.canonicalize", "syntax.CharSet.ranges[]", true, .parseLocal),
+  ("syntax/charclass.go:CharSet.makeAnything", "syntax.CharSet.anything", true, .parseLocal),
+  ("syntax/charclass.go:CharSet.makeAnything", "syntax.CharSet.categories", true, .parseLocal),
+  ("syntax/charclass.go:CharSet.makeAnything", "syntax.CharSet.ranges", true, .parseLocal),
+  ("syntax/charclass.go:CharSet.prepareASCIIBitmap", "syntax.CharSet.ascii", false, .compileTime),
+  ("syntax/optimizations.go:newFindOptimizations", "?positiveLookaheadOpts.MaxPossibleLength", false, .compileTime),
+  ("syntax/optimizations.go:newFindOptimizations", "?positiveLookaheadOpts.MinRequiredLength", false, .compileTime),
+  ("syntax/parser.go:parser.scanCharSet", "syntax.CharSet.building", false, .compileTime),
+  ("syntax/parser.go:parser.scanCharSet", "syntax.CharSet.negate", false, .compileTime),
+  ("syntax/prefixanalyzer.go:findFixedDistanceSets", "syntax.FixedDistanceSet.Chars", false, .compileTime),
+  ("syntax/prefixanalyzer.go:findFixedDistanceSets", "syntax.FixedDistanceSet.Negated", false, .compileTime),
+  ("syntax/prefixanalyzer.go:findFixedDistanceSets", "syntax.FixedDistanceSet.Range", false, .compileTime),
+  ("syntax/prefixanalyzer.go:findPrefixesCore", "*bytes.Buffer", false, .compileTime),
+  ("syntax/prefixanalyzer.go:tryFindFirstCharClass", "*syntax.CharSet", false, .compileTime),
+  ("syntax/prefixanalyzer.go:tryFindFirstCharClass", "syntax.CharSet.negate", false, .compileTime),
+  ("syntax/prefixanalyzer.go:tryFindRawFixedSets", "*?distance", false, .compileTime),
+  ("syntax/prefixanalyzer.go:tryFindRawFixedSets", "*syntax.FixedDistanceSet", false, .compileTime),
+  ("syntax/tree.go:RegexNode.TryGetJoinableLengthCheckChildRange", "*?exclusiveEnd", false, .compileTime),
+  ("syntax/tree.go:RegexNode.TryGetJoinableLengthCheckChildRange", "*?requiredLength", false, .compileTime),
+  ("syntax/writer.go:Write", "?code.QuickCodes", false, .compileTime),
+  ("syntax/writer.go:writer.codeFromTree", "?prefix.PrefixStr", false, .compileTime)]
+
+/-- **The shared write-set is exactly the expected one.**  The list of all assignments (`=`, `op=`,
+    increment and decrement, element assignments, `delete`, `copy`, `*p = …`) whose target is a package-level variable
+    or lies in an object reachable from a `*Regexp` (fields of `Regexp`, `syntax.Code`, `syntax.CharSet`,
+    `syntax.FindOptimizations`, `Prefix`, `BmPrefix`, the cache, the pools, the clock), regenerated from the
+    Go source on every run together with a match-time reachability estimate, equals the list above.  A
+    new unsynchronised write to a `Regexp` field at match time changes the list and breaks this obligation. -/
+theorem writeset_expected :
+    Generated.sharedWrites = expectedSharedWrites.map (fun e => (e.1, e.2.1, e.2.2.1)) := by decide
+
+/-- every write that can happen while another goroutine uses the same Regexp is of a synchronised or
+    exclusively-owned kind; the unsynchronised kinds occur only in functions unreachable at match time -/
+theorem writeset_synchronised :
+    expectedSharedWrites.all (fun e =>
+      if e.2.2.1 then e.2.2.2 != .compileTime && e.2.2.2 != .testOnly
+      else e.2.2.2 == .compileTime || e.2.2.2 == .testOnly || e.2.2.2 == .mutex) = true := by decide
+
+/-- both constructors call `initCaches`, so the lazy call in `getRunner` never fires for a usable Regexp -/
+theorem initCaches_callers :
+    Generated.initCachesCallers = ["regexp.go:compile", "regexp_codegen.go:newEngineRegexp", "runner.go:Regexp.getRunner"] := by
+  decide
+
+/-- the shared structures have exactly the fields the model accounts for: the cache (`mu`, `maxSize`,
+    `ll`, `cache`), the pools (`sizes`, `pools`), the clock (`current`, `clockEnd` atomics; `mu`, `start`,
+    `running` under `mu`), and `Regexp` (read-only after Compile except `runnerPool`/`replaceCache`
+    contents, which are the synchronised structures) -/
+theorem shared_fields_accounted :
+    Generated.replacerDataCacheFields = ["mu", "maxSize", "ll", "cache"] ∧
+    Generated.pooledSliceBuffersFields = ["sizes", "pools"] ∧
+    Generated.fastclockFields = ["current", "clockEnd", "mu", "start", "running"] ∧
+    Generated.regexpFields = ["MatchTimeout", "pattern", "options", "debug", "caps", "capnames", "capslist", "capsize",
+      "code", "optimizations", "runnerPool", "replaceCache", "findFirstChar", "execute", "executeQuick",
+      "stringPrefixFilter", "quickCode"] := by decide
+
+end writeset
 end RegexVerif.Props.C11
